@@ -533,6 +533,7 @@ func walMonitor(ops, impl []string) []Violation {
 		vs = append(vs, Violation{Property: p, What: what, Detail: detail, Ops: ops[:upto+1], Impl: impl[:upto+1]})
 	}
 	var appends, entriesW, bytesW, entriesR, bytesR, head, tail, gets, sets uint64
+	lastRot, storesSince := -1, 0
 	seenIDs := map[uint64]uint64{} // id -> base
 	var lastNext uint64
 	var curFirst, curLast uint64 // from the most recent first/last outputs
@@ -559,6 +560,7 @@ func walMonitor(ops, impl []string) []Violation {
 		case "open", "reopen":
 			closed = out != "ok"
 			if ws[0] == "open" {
+				lastRot, storesSince = -1, 0 // a fresh collector
 				createdCodec, haveLogs = atoiU(ws[2]), false
 				if out == "ok" && createdCodec != wal.CodecBinaryV1 && createdCodec < wal.FirstExternalCodecID {
 					add("C12", "a reserved codec ID was accepted", op, i)
@@ -583,6 +585,7 @@ func walMonitor(ops, impl []string) []Violation {
 		case "store":
 			if out == "ok" {
 				appends++
+				storesSince++
 				for _, t := range ws[1:] {
 					l := parseLogTok(t)
 					entriesW++
@@ -677,6 +680,17 @@ func walMonitor(ops, impl []string) []Violation {
 			wantT := fmt.Sprintf("head=%d tail=%d gets=%d sets=%d", head, tail, gets, sets)
 			if !strings.HasSuffix(out, wantT) {
 				add("C20", "truncation/stable counters differ from the true totals", fmt.Sprintf("got %q want suffix %q", out, wantT), i)
+			}
+			// rotations: only an acknowledged append that fills the tail moves the log to a new segment file — between two
+			// readings the counter grows by at most the number of acknowledged appends in between (truncations, re-basing,
+			// restarts and stable operations are not rotations)
+			var rot int
+			if k := strings.Index(out, " rot="); k >= 0 {
+				fmt.Sscanf(out[k:], " rot=%d", &rot)
+				if lastRot >= 0 && (rot < lastRot || rot-lastRot > storesSince) {
+					add("C20", "segment_rotations moved without a rotation", fmt.Sprintf("rotations %d -> %d across %d acknowledged appends", lastRot, rot, storesSince), i)
+				}
+				lastRot, storesSince = rot, 0
 			}
 		}
 	}
@@ -873,7 +887,14 @@ func (g *walGen) step(kind string) {
 				mn = g.first + 1
 			}
 		}
+		sample := r.Chance(1, 2)
+		if sample {
+			g.do("ctr")
+		}
 		g.do(fmt.Sprintf("del %d %d", mn, mx))
+		if sample {
+			g.do("ctr")
+		}
 		g.refresh()
 	case "reopen":
 		g.do("reopen 1")
